@@ -323,5 +323,82 @@ class RealFindLinks(BazelStream):
         return g, roots, text
 
 
+class LockRegenerated(Stream):
+    """history: `bazel run //pkg:requirements.update` twice over its own lock (the real private/compiler.py, the second run
+    reads the first lock back as the solution), the find-links directory gains versions in between; each generation of
+    the lock goes through the Starlark loader, which must accept both and recover the same pins"""
+    name = "lock-regenerated"
+    quick_n = 40
+    thorough_n = 1500
+    batch = 10
+    parallel_quick = 4
+    shrink_budget = 30
+
+    def setup(self):
+        from rv.props.c05 import BazelUpdate
+        self.inner = BazelUpdate()
+        self.inner.setup()
+
+    def teardown(self):
+        self.inner.teardown()
+
+    def generate(self, rng):
+        case = self.inner.generate(rng)
+        # requirers on both sides of what they require in the alphabet (the lock is sorted by name)
+        if rng.random() < 0.6:
+            names = sorted(case["universe"])
+            if len(names) >= 2:
+                hi, lo = names[-1], names[0]
+                for v in case["universe"][hi]:
+                    if not any(GL.norm(GL.P(t).name) == GL.norm(lo) for t in case["universe"][hi][v]):
+                        case["universe"][hi][v] = case["universe"][hi][v] + [lo]
+                case["inputs"] = [[hi]]
+        return case
+
+    @staticmethod
+    def _load(text):
+        from rv import bzlshim
+        rr, u = bzlshim.reqs_repo()
+        full = "## generated\n" + text
+        try:
+            res = rr["parse_lockfile"](full, "hub", {}, bzlshim.Label("@ws//pkg:requirements.txt"))
+            return {"pins": {k: [v["version"], v["sha256"], v["whl"] or v["url"], sorted(v["deps"])] for k, v in res.items()}}
+        except bzlshim.BzlFail as ex:
+            return {"fail": str(ex)[:200]}
+        except Exception as ex:
+            return {"error": type(ex).__name__ + ": " + str(ex)[:150]}
+
+    def impl(self, case):
+        r = self.inner.impl(case)
+        out = {"first_code": r["first"]["code"], "exc": r["first"]["exception"]}
+        if "again" in r and r["first"]["code"] == 0 and not r["first"]["exception"]:
+            out["gen1"] = self._load(r["first"]["text"])
+            out["again_code"] = r["again"]["code"]
+            out["gen2"] = self._load(r["again"]["text"])
+        return out
+
+    def flags(self, case, r):
+        fl = ["first-exit:%s" % r["first_code"]]
+        if "gen2" in r:
+            fl.append("second-generation-loaded")
+            if "pins" in r["gen1"] and any(d for _, _, _, d in r["gen1"]["pins"].values()):
+                fl.append("lock-with-dependency-edges")
+        return fl
+
+    def oracle(self, case, r):
+        if "gen2" not in r:
+            return []
+        fails = []
+        for gen in ("gen1", "gen2"):
+            if "fail" in r[gen] or "error" in r[gen]:
+                fails.append(("C19/own-lock-rejected/%s" % ("first-generation" if gen == "gen1" else "regenerated"), r[gen]))
+        if not fails and r["gen1"] != r["gen2"]:
+            fails.append(("C19/regenerated-lock-loads-differently", {"first": r["gen1"], "second": r["gen2"]}))
+        return fails
+
+    def shrink(self, case):
+        return self.inner.shrink(case)
+
+
 def streams():
-    return [BazelStream(), CheckedInLocks(), RealFindLinks()]
+    return [BazelStream(), CheckedInLocks(), RealFindLinks(), LockRegenerated()]
